@@ -332,3 +332,60 @@ func HarnessC16ListMapCallbackArgs() {
 	verifrt.Assert(c16Same(ls.items, model), "map-does-not-mutate")
 	verifrt.Reach("done")
 }
+
+// HarnessC16ListCallbacksWithBuiltins: map, filter and each accept a builtin as
+// the callback just as a script function: no panic, the builtin sees every item
+// once and in order, filter keeps exactly the items it approves of, and the
+// list itself is not changed.
+func HarnessC16ListCallbacksWithBuiltins() {
+	ls, model := c16MkList(3)
+	var seen []Object
+	pos := &Builtin{name: "positive", fn: func(ctx context.Context, args ...Object) Object {
+		if len(args) == 1 {
+			seen = append(seen, args[0])
+			if iv, ok := args[0].(*Int); ok {
+				return NewBool(iv.value > 0)
+			}
+		}
+		return False
+	}}
+	call := func(ctx context.Context, fn *Function, args []Object) (Object, error) { return Nil, nil }
+	ctx := WithCallFunc(context.Background(), call)
+	var res Object
+	which := verifrt.Choose(3)
+	panicked := func() (p bool) {
+		defer func() {
+			if r := recover(); r != nil {
+				p = true
+			}
+		}()
+		switch which {
+		case 0:
+			res = ls.Filter(ctx, pos)
+		case 1:
+			res = ls.Each(ctx, pos)
+		case 2:
+			res = ls.Map(ctx, pos)
+		}
+		return false
+	}()
+	verifrt.Assert(!panicked, "list-callback-with-a-builtin-never-panics")
+	if panicked {
+		return
+	}
+	verifrt.Reach("called")
+	verifrt.Assert(!IsError(res), "list-callback-with-a-builtin-succeeds")
+	verifrt.Assert(c16Same(seen, model), "builtin-callback-sees-every-item-in-order")
+	verifrt.Assert(c16Same(ls.items, model), "callback-methods-do-not-mutate")
+	if which == 0 {
+		if out, ok := res.(*List); ok {
+			var want []Object
+			for _, it := range ls.items {
+				if iv, isInt := it.(*Int); isInt && iv.value > 0 {
+					want = append(want, it)
+				}
+			}
+			verifrt.Assert(len(out.items) == len(want), "filter-keeps-exactly-the-approved-items")
+		}
+	}
+}
